@@ -190,6 +190,8 @@ def reset (s : Storage) : M Storage := pure { s with _items := [] }
 def can_read (_ : Storage) : Bool := true
 def can_write (_ : Storage) : Bool := true
 def can_append (_ : Storage) : Bool := true
+/-- `storage.read()`: every row, deserialised, in storage order -/
+def read (s : Storage) : List TinyFlux.Spec.Point := s._items
 /-- `len(storage)`: the number of records -/
 def __len__ (s : Storage) : Nat := s._items.length
 /-- `storage._deserialize_timestamp(row)` -/
